@@ -485,8 +485,8 @@ def run_c01(ctx):
     ref = RefStepper(sc, b.ap.nm)
     Tol.ref = ref
     ref.set_up(sc.t0, sc.dt0, sc.state0)
-    backs = [InterpBackend(b.code_sim, {fn: FUNCS[fn][1] for fn in sc.funcs}),
-             GenBackend(b.cls, b.nmgr, {fn: FUNCS[fn][1] for fn in sc.funcs})]
+    backs = [InterpBackend(b.code_sim, {fn: sc.func_impl(fn) for fn in sc.funcs}),
+             GenBackend(b.cls, b.nmgr, {fn: sc.func_impl(fn) for fn in sc.funcs})]
     for bk in backs:
         bk.set_up(sc.t0, sc.dt0, sc.state0)
         compare_store(bk, bk.persistent(), ref.persistent(), "after set_up")
@@ -531,5 +531,297 @@ def run_c01(ctx):
                   "step_outcomes": outcomes[:8], "events": len(ref.events)}
 
 
+class SeqChooser:
+    """Iteration orders that are a fixed function of (seed, site, n-th iteration since
+    reset): a twin stepper reset at the same point sees exactly the same schedule."""
+
+    def __init__(self, seed, enabled=True):
+        self.seed = seed
+        self.enabled = enabled
+        self.counts = {}
+
+    def reset(self):
+        self.counts = {}
+
+    def __call__(self, site, items):
+        if not self.enabled:
+            return list(items)
+        import random
+        from simdag.core.tape import derive_seed
+        n = self.counts.get(site, 0)
+        self.counts[site] = n + 1
+        order = list(items)
+        random.Random(derive_seed(self.seed, site, n)).shuffle(order)
+        return order
+
+
+def do_step(bk, mode, cap=40):
+    """One caller-level step on a real stepper.  Returns (events, outcome)."""
+    events = []
+    obj = bk.obj
+    try:
+        if mode == "single":
+            for ev in obj.run_single_step():
+                events.append(bk.events_of(ev))
+            return events, "completed"
+        gen = obj.run(max_steps=1)
+        for ev in gen:
+            events.append(bk.events_of(ev))
+            if events[-1][0] == "failed":
+                # the generator is suspended between two steps: a step boundary
+                bk.boundary = ({k: (v.copy() if isinstance(v, np.ndarray) else v)
+                                for k, v in bk.persistent().items()}, obj.next_phase)
+            if len(events) >= cap:
+                gen.close()
+                return events, "cap"
+        return events, "run-done"
+    except bk.FailStep:
+        return events, "failed"
+    except bk.Transition as e:
+        obj.next_phase = e.next_phase
+        return events, "completed"
+    except Exception as e:
+        return events, ("exc", e)
+
+
+def _desc(deps_idx, f):
+    n = len(deps_idx)
+    out = set()
+    for i in range(n):
+        stack = list(deps_idx[i])
+        seen = set()
+        while stack:
+            j = stack.pop()
+            if j == f:
+                out.add(i)
+                break
+            if j in seen:
+                continue
+            seen.add(j)
+            stack.extend(deps_idx[j])
+    return out
+
+
 def run_c11(ctx):
-    raise Discard("not-implemented-yet")
+    tape = ctx.tape
+    thorough = ctx.thorough
+    with tape.span("knobs"):
+        permute = tape.chance(0.85, "permute")
+        max_ops = [4, 8, 12][tape.draw(3, "max_ops")]
+        sched_seed = tape.draw(1 << 30, "sched_seed")
+    gen = ScriptGen(tape, max_ops=max_ops, max_phases=3, max_depth=2, unique_sites=True,
+                    force=("calls", "call_stmt"))
+    sc = gen.gen()
+    if not sc.funcs:
+        raise Discard("no-user-function")
+    b = build_all(ctx, sc, tape, permute=False)
+    ctx.decoded["script"] = sc.text(b.ap.nm)
+    ctx.decoded["features"] = sc.features
+    chooser = SeqChooser(sched_seed, enabled=permute)
+    # interpreter DAG with SeqChooser-owned orders
+    sim_phases = {}
+    for ph in sc.phases:
+        stmts = [st.copy() for st in b.ap.builders[ph.name].statements]
+        for st in stmts:
+            st.depends_on = OrdFS(st.depends_on, chooser, "deps:" + st.id)
+        sim_phases[ph.name] = SimPhase(ph.name, ph.next_phase, stmts, chooser)
+    code_sim = DAGCode(sim_phases, sc.initial)
+
+    def mk(kind):
+        table = FuncTable(ctx.log, kind)
+        fmap = {fn: table.wrap(fn, sc.func_impl(fn)) for fn in sc.funcs}
+        bk = InterpBackend(code_sim, fmap) if kind == "interpreter" else GenBackend(b.cls, b.nmgr, fmap)
+        bk.table = table
+        return bk
+
+    with tape.span("plan"):
+        pre_steps = tape.draw(4, "pre_steps")
+        step_mode = ["single", "run1"][tape.draw(2, "step_mode")]
+        exc_cls = FAULT_CLASSES[tape.draw(len(FAULT_CLASSES), "exc")]
+        n_after = 1 + tape.draw(3, "n_after")
+        second_fault = tape.chance(0.3, "second_fault")
+    kinds = ["interpreter", "generated"]
+    fired_any = False
+    for kind in kinds:
+        with tape.span("backend"):
+            A = mk(kind)
+            A.set_up(sc.t0, sc.dt0, sc.state0)
+            # fault-free prefix
+            for _ in range(pre_steps):
+                chooser.reset()
+                A.table.new_step()
+                _evs, out = do_step(A, "single")
+                if isinstance(out, tuple) and not A.is_step_error(out[1]):
+                    raise Discard("ill-defined:prefix-raises")
+            # find a step with user-function calls (dry run on a twin from the same state)
+            N = 0
+            for _try in range(3):
+                pre = {k: (v.copy() if isinstance(v, np.ndarray) else v) for k, v in A.persistent().items()}
+                pre_phase = A.obj.next_phase
+                T = mk(kind)
+                T.install(pre, pre_phase)
+                chooser.reset()
+                T.table.new_step()
+                t_evs, t_out = do_step(T, step_mode)
+                N = T.table.step_calls
+                if isinstance(t_out, tuple) and not T.is_step_error(t_out[1]):
+                    raise Discard("ill-defined:fault-free-step-raises")
+                if N > 0:
+                    break
+                chooser.reset()
+                A.table.new_step()
+                do_step(A, "single")
+            if N == 0:
+                ctx.count("no_call_in_step:" + kind)
+                continue
+            ks = list(range(N)) if thorough else sorted(set(tape.draw(N, "k") for _ in range(2)))
+            ctx.decoded.setdefault("faults", [])
+            for k in ks[:24]:
+                if k != ks[0]:
+                    A = mk(kind)
+                    A.install(pre, pre_phase)
+                    if kind == "generated":
+                        A.base_attrs = set(vars(A.obj))
+                exc = exc_cls("injected fault at call %d" % k)
+                chooser.reset()
+                A.table.new_step()
+                A.table.arm(k, exc)
+                A.boundary = (pre, pre_phase)
+                evs, out = do_step(A, step_mode)
+                step_pre, step_phase = A.boundary       # state at the start of the step that faulted
+                label = "%s: fault %s at user call %d of the step in phase %r after %d steps" % (
+                    kind, exc_cls.__name__, k, pre_phase, pre_steps)
+                ctx.decoded["faults"].append(label)
+                if A.table.fired is None:
+                    raise Violation("resume-divergence", "%s: twin stepper from the same state made %d calls, "
+                                    "this one ended (%r) before call %d" % (label, N, out, k), site=kind)
+                fired_any = True
+                fn_fired = A.table.fired[0]
+                ctx.count("fault:user_function_raises")
+                ctx.count("fault:exc_" + exc_cls.__name__)
+                if k == 0:
+                    ctx.count("probe:fault_first_call")
+                # X1
+                if not (isinstance(out, tuple) and out[1] is exc):
+                    got = out[1] if isinstance(out, tuple) else out
+                    raise Violation("exception-identity", "%s: caller received %r instead of the exception "
+                                    "object raised by the user function" % (label, got), site=kind)
+                post = A.persistent()
+                # X2
+                if kind == "interpreter":
+                    temps = sorted(k2 for k2 in A.store_keys() if not is_persistent(k2))
+                else:
+                    temps = sorted(a for a in set(vars(A.obj)) - (A.base_attrs or set())
+                                   if not a.startswith("global_"))
+                if temps:
+                    raise Violation("temporary-visible", "%s: per-step names still visible: %r" % (label, temps),
+                                    site=kind)
+                # X3 / X4 against the written program's fault-free step from the same state
+                stmts = list(b.ap.builders[step_phase].statements)
+                pos = {st.id: i for i, st in enumerate(stmts)}
+                deps_idx = [[pos[d] for d in st.depends_on] for st in stmts]
+                F = [i for i, st in enumerate(stmts) if fn_fired in str(st)]
+                if len(F) == 1:
+                    f = F[0]
+                    desc = _desc(deps_idx, f)
+                    if stmts[f].condition is not True:
+                        ctx.count("probe:fault_in_guarded")
+                    if getattr(stmts[f], "loops", None):
+                        ctx.count("probe:fault_in_loop")
+                    ref = RefStepper(sc, b.ap.nm)
+                    Tol.ref = ref
+                    ref.vars = {k2: (v.copy() if isinstance(v, np.ndarray) else v) for k2, v in step_pre.items()}
+                    ref.next_phase = step_phase
+                    ref.writes = {}
+                    ok_ref = True
+                    try:
+                        ref.step()
+                    except IllDefined:
+                        ok_ref = False
+                        ctx.count("x3_skipped_ill_defined")
+                    if ok_ref:
+                        check_x3_x4(label, kind, step_pre, post, ref, b.ap, step_phase, stmts, f, desc)
+                if any(not same_value(post.get(v), step_pre.get(v)) for v in post):
+                    ctx.count("probe:fault_after_persistent_write")
+                # X5 resumption: old object vs a fresh stepper installed with the same state
+                B = mk(kind)
+                B.install(post, A.obj.next_phase)
+                for oi in range(n_after):
+                    results = []
+                    for S in (A, B):
+                        chooser.reset()
+                        S.table.new_step()
+                        if second_fault and oi == 0:
+                            S.table.arm(0, exc_cls("second fault"))
+                        results.append(do_step(S, step_mode if oi % 2 == 0 else "single"))
+                        S.table.disarm()
+                    if second_fault and oi == 0:
+                        ctx.count("probe:second_fault")
+                    ctx.count("probe:resume_steps")
+                    (ea, oa), (eb, ob) = results
+                    same_out = (oa == ob) if not (isinstance(oa, tuple) or isinstance(ob, tuple)) else (
+                        isinstance(oa, tuple) and isinstance(ob, tuple) and type(oa[1]) is type(ob[1])
+                        and str(oa[1]) == str(ob[1]))
+                    if not same_out or len(ea) != len(eb) or any(not events_equal(x, y) for x, y in zip(ea, eb)):
+                        raise Violation("resume-divergence",
+                                        "%s: step %d after the fault: resumed stepper %r / %s, fresh stepper "
+                                        "started in the same state and phase %r / %s"
+                                        % (label, oi, oa, [show(e) for e in ea], ob, [show(e) for e in eb]),
+                                        site=kind)
+                    pa, pb = A.persistent(), B.persistent()
+                    for v in sorted(set(pa) | set(pb)):
+                        if v not in pa or v not in pb or not same_value(pa[v], pb[v]):
+                            if pa.get(v) is None and pb.get(v) is None:
+                                continue
+                            raise Violation("resume-divergence",
+                                            "%s: step %d after the fault: %s = %s resumed, %s fresh"
+                                            % (label, oi, v, show(pa.get(v)), show(pb.get(v))), site=kind)
+                    if A.obj.next_phase != B.obj.next_phase:
+                        raise Violation("resume-divergence", "%s: step %d after the fault: next_phase %r resumed, "
+                                        "%r fresh" % (label, oi, A.obj.next_phase, B.obj.next_phase), site=kind)
+                ctx.dkey(kind, pre_steps, k, exc_cls.__name__)
+    ctx.nontrivial = fired_any
+    ctx.dkey(sc.shape_sig, step_mode)
+    ctx.count("sum:steps", pre_steps + n_after + 1)
+    ctx.sample = {"script": ctx.decoded["script"][:12], "faults": ctx.decoded.get("faults", [])[:4]}
+
+
+def check_x3_x4(label, kind, pre, post, ref, ap, phase, stmts, f, desc):
+    tol = Tol.get()
+    for v in sorted(post):
+        pv = post[v]
+        allowed_whole = [pre.get(v)]
+        elem_allowed = {}
+        for (op, val) in ref.writes.get(v, []):
+            ph, idxs = ap.op_stmts.get(id(op), (phase, []))
+            if idxs and all(i in desc for i in idxs):
+                continue
+            if isinstance(val, tuple) and len(val) == 3 and val[0] == "elem":
+                elem_allowed.setdefault(val[1], []).append(val[2])
+            else:
+                allowed_whole.append(val)
+        ok = any(same_value(pv, a, tol) for a in allowed_whole if a is not None or pv is None)
+        if not ok and isinstance(pv, np.ndarray):
+            ok = True
+            for i, x in enumerate(pv.tolist()):
+                cands = [a[i] for a in allowed_whole if isinstance(a, np.ndarray) and len(a) == len(pv)]
+                cands += elem_allowed.get(i, [])
+                if not any(same_value(x, c, tol) for c in cands):
+                    ok = False
+                    break
+        if not ok:
+            raise Violation("value-not-allowed", "%s: %s = %s is neither its value before the step (%s) nor a "
+                            "value the written program assigns to it in this step %s"
+                            % (label, v, show(pv), show(pre.get(v)),
+                               [show(a) for a in allowed_whole[1:]][:6]), site=kind + ":" + _vclass(v))
+    # X4: variables whose every write is the failing statement or depends on it
+    for v in sorted(post):
+        writers = [i for i, st in enumerate(stmts) if v in st.get_written_variables()]
+        if not writers:
+            continue
+        loops_f = bool(getattr(stmts[f], "loops", None))
+        if all((i in desc) or (i == f and not loops_f) for i in writers):
+            if not same_value(post[v], pre.get(v), tol):
+                raise Violation("dependent-var-changed", "%s: every write of %s depends on the failed call, yet it "
+                                "changed from %s to %s" % (label, v, show(pre.get(v)), show(post[v])),
+                                site=kind + ":" + _vclass(v))
